@@ -209,6 +209,34 @@ pub fn gen_fixed_room_squeeze(r: &mut Rng) -> Inst {
     Inst { courses, parts, rooms: Some(rooms) }
 }
 
+/// A fixed course that stays empty, with a FRACTIONAL room offset (as the CdE reader produces for
+/// pre-assigned people: 3 x 1.5 = 4.5), and a room of exactly floor(offset) places at its rank: the
+/// empty fixed course needs ceil(offset) places.
+pub fn gen_fixed_empty_fractional_offset(r: &mut Rng) -> Inst {
+    let off = [0.5f32, 1.5, 2.5, 4.5][r.usize(4)];
+    let k = 1 + r.usize(3);
+    let mut courses: Vec<CourseDump> = (0..k)
+        .map(|i| CourseDump { index: i, dbid: 100 + i, name: format!("c{}", i), num_min: r.usize(2), num_max: 6, instructors: vec![],
+            room_factor: 1.0, room_offset: 0.0, fixed_course: false, hidden_participant_names: vec![] })
+        .collect();
+    courses.push(CourseDump { index: k, dbid: 100 + k, name: "F".into(), num_min: 0, num_max: 3, instructors: vec![],
+        room_factor: [1.0f32, 1.5][r.usize(2)], room_offset: off, fixed_course: true, hidden_participant_names: vec![] });
+    let np = 3 + r.usize(6);
+    let parts: Vec<ParticipantDump> = (0..np)
+        .map(|i| {
+            let c = r.usize(k);
+            let mut ch = vec![(c, 0u32)];
+            if k > 1 { ch.push(((c + 1) % k, 1)); }
+            if r.chance(1, 4) { ch.push((k, 2)); }
+            ParticipantDump { index: i, dbid: 1000 + i, name: format!("p{}", i), choices: ch }
+        })
+        .collect();
+    // generous rooms for the popular courses; the smallest room is floor(offset) or ceil(offset)
+    let mut rooms = vec![8usize + r.usize(3); k];
+    rooms.push(if r.chance(2, 3) { off.floor() as usize } else { off.ceil() as usize });
+    Inst { courses, parts, rooms: Some(rooms) }
+}
+
 /// Third f32 corner: the shrink size computed by the inverse formula does not fit the room by the
 /// forward formula (`floor((25 - 0.7) / 2.7) = 9` but `ceil(0.7 + 2.7 * 9) = 26 > 25`), so the same
 /// shrink constraint is proposed again for an already shrunk course.
@@ -509,6 +537,62 @@ impl Tree {
 }
 
 /// random finite tree: branching <= 4, depth <= 5, score-0 leaves, ties, tight and slack bounds
+/// wide trees: more than 100 subproblems pending at once (a root with many children, or a comb)
+pub fn gen_wide_tree(r: &mut Rng) -> Tree {
+    let mut nodes: Vec<(u32, Kind)> = vec![];
+    if r.chance(1, 2) {
+        let n = 110 + r.usize(80);
+        let kids: Vec<u32> = (1..=n as u32).collect();
+        let mut best = 0;
+        let mut leaves = vec![];
+        for _ in 0..n {
+            let k = match r.below(5) { 0 => Kind::NoSol, 1 => Kind::Infeasible(vec![], r.below(50) as u32), _ => { let s = r.below(500) as u32; best = best.max(s); Kind::Feasible(s) } };
+            leaves.push((1u32, k));
+        }
+        nodes.push((0, Kind::Infeasible(kids, best + r.below(3) as u32)));
+        nodes.extend(leaves);
+    } else {
+        // comb: every level has an inner node and several leaves; inner nodes are pushed first
+        let levels = 25 + r.usize(15);
+        let mut specs: Vec<(u32, Vec<u32>, Vec<u32>)> = vec![]; // (depth, leaf scores, ..)
+        let _ = &mut specs;
+        nodes.push((0, Kind::NoSol));
+        let mut cur = 0usize;
+        let mut all_scores: Vec<u32> = vec![];
+        for d in 0..levels {
+            let nleaves = 3 + r.usize(3);
+            let mut kids = vec![];
+            let inner = nodes.len();
+            nodes.push((d as u32 + 1, Kind::NoSol));
+            kids.push(inner as u32);
+            for _ in 0..nleaves {
+                let s = r.below(1000) as u32;
+                all_scores.push(s);
+                nodes.push((d as u32 + 1, Kind::Feasible(s)));
+                kids.push((nodes.len() - 1) as u32);
+            }
+            nodes[cur].1 = Kind::Infeasible(kids, 0);
+            cur = inner;
+        }
+        nodes[cur].1 = Kind::Feasible(r.below(1000) as u32);
+        // bounds: best feasible below + slack
+        fn fix(nodes: &mut Vec<(u32, Kind)>, i: usize, r: &mut Rng) -> u32 {
+            match nodes[i].1.clone() {
+                Kind::Feasible(s) => s,
+                Kind::Infeasible(kids, _) => {
+                    let mut m = 0;
+                    for k in kids.iter() { m = m.max(fix(nodes, *k as usize, r)); }
+                    nodes[i].1 = Kind::Infeasible(kids, m + r.below(3) as u32);
+                    m
+                }
+                _ => 0,
+            }
+        }
+        fix(&mut nodes, 0, r);
+    }
+    Tree { nodes }
+}
+
 pub fn gen_tree(r: &mut Rng, max_nodes: usize, with_panic: bool) -> Tree {
     let mut nodes: Vec<(u32, Kind)> = vec![(0, Kind::NoSol)];
     let mut frontier = vec![0usize];
